@@ -155,6 +155,9 @@ def conclude(prop, tier, seed, mod, results, lost, jobs, wall):
         reasons.append('no worker finished')
     if crashes:
         reasons.append('%d harness crashes, e.g. %s' % (len(crashes), crashes[0]['error'][:200]))
+    if lost:
+        # a worker that died or hung took its share of the cases with it: what they would have shown is unknown
+        reasons.append('%d of %d workers lost (%s)' % (len(lost), jobs, lost[0][1][-160:].replace('\n', ' | ')))
     evaluations = int(counters.get('evaluations', counters.get('cases_run', 0)))
     coverage = {
         'evaluations': max(evaluations, 0),
